@@ -190,20 +190,20 @@ def gen_update_args(rng, opts=None):
         if rng.random() < 0.4:
             if rng.random() < 0.5:
                 n = rng.choice([1, 1, 2])
-                a["tags"] = {"static": {rng.choice(TAG_KEYS + ["n"]): rng.choice(TAG_VALS) for _ in range(n)}}
+                a["tags"] = {"static": {rng.choice(TAG_KEYS + ["n", "f", "kj", ""]): rng.choice(TAG_VALS) for _ in range(n)}}
             else:
                 a["tags"] = {"call": rng.choice(["tags_add_k", "tags_only_new", "tags_empty", "tags_same", "tags_none_j", "tags_inplace_add", "tags_inplace_pop"])}
         if rng.random() < 0.4:
             if rng.random() < 0.5:
                 n = rng.choice([1, 1, 2])
-                a["fields"] = {"static": {rng.choice(FIELD_KEYS + ["n"]): rng.choice(FIELD_VALS) for _ in range(n)}}
+                a["fields"] = {"static": {rng.choice(FIELD_KEYS + ["n", "xy", ""]): rng.choice(FIELD_VALS) for _ in range(n)}}
             else:
                 a["fields"] = {"call": rng.choice(["fields_inc_x", "fields_only_new", "fields_empty", "fields_same", "fields_none_y", "fields_inplace_set", "fields_inplace_clear"])}
         if rng.random() < 0.25:
-            ks = rng.sample(TAG_KEYS + ["n"], rng.choice([1, 1, 2]))
+            ks = rng.sample(TAG_KEYS + ["n", "kj", "f"], rng.choice([1, 1, 2]))
             a["unset_tags"] = ks[0] if len(ks) == 1 and rng.random() < 0.5 else ks
         if rng.random() < 0.25:
-            ks = rng.sample(FIELD_KEYS + ["n"], rng.choice([1, 1, 2]))
+            ks = rng.sample(FIELD_KEYS + ["n", "xy"], rng.choice([1, 1, 2]))
             a["unset_fields"] = ks[0] if len(ks) == 1 and rng.random() < 0.5 else ks
         for k in ("unset_tags", "unset_fields"):
             if isinstance(a.get(k), list) and rng.random() < 0.5:
